@@ -547,6 +547,30 @@ func ruleNormaliseIdentity(c *eng.Ctx) {
 		target := sig.Results().At(0).Type()
 		info := fi.Pkg.TypesInfo
 		ast.Inspect(fi.Decl.Body, func(m ast.Node) bool {
+			// the same decision written as a comma-ok assertion: if t, ok := v.(T); ok { return t, nil }
+			if is, ok := m.(*ast.IfStmt); ok {
+				if as, ok := is.Init.(*ast.AssignStmt); ok && len(as.Lhs) == 2 && len(as.Rhs) == 1 {
+					if ta, ok := ast.Unparen(as.Rhs[0]).(*ast.TypeAssertExpr); ok && ta.Type != nil {
+						if t := info.TypeOf(ta.Type); t != nil && types.Identical(t, target) && eng.ObjOf(info, is.Cond) != nil && eng.ObjOf(info, is.Cond) == eng.ObjOf(info, as.Lhs[1]) {
+							bound := eng.ObjOf(info, as.Lhs[0])
+							n++
+							good, cnt := true, 0
+							ast.Inspect(is.Body, func(x ast.Node) bool {
+								if r, ok := x.(*ast.ReturnStmt); ok && len(r.Results) == 2 {
+									cnt++
+									if eng.ObjOf(info, r.Results[0]) != bound || bound == nil {
+										good = false
+									}
+								}
+								return true
+							})
+							c.Check(good && cnt > 0, rule, fmt.Sprintf("client.%s:case(%s):identity", fi.Decl.Name.Name, eng.ExprStr(ta.Type)), is.Pos(), "a value of the target type is returned unchanged",
+								"the normaliser transforms a value that already has the field's Go type: the same document built from a typed value and from its textual form is encoded differently and gets two different docIDs")
+						}
+					}
+				}
+				return true
+			}
 			ts, ok := m.(*ast.TypeSwitchStmt)
 			if !ok {
 				return true
